@@ -366,7 +366,8 @@ def _structure_returns(stmts: List[ast.stmt], ret: str, _budget: Optional[List[i
         if _contains_return(st):
             return None
         out.append(st)
-    return out, False
+    # a block that ends by raising has no path that falls out of it without a result
+    return out, bool(out) and isinstance(out[-1], ast.Raise)
 
 
 class Inliner:
